@@ -2,6 +2,7 @@ package mcp
 
 import (
 	"context"
+	"log/slog"
 	"errors"
 	"fmt"
 	"time"
@@ -138,5 +139,88 @@ func zzC13CancelFirst() {
 		vReach("exit-without-ping")
 	}
 	vAssert(zzC13TickerStopped == 1, "C13.ticker-stopped-on-exit")
+	vReach("end")
+}
+
+// ---------------------------------------------------------------- where keep-alive is switched on
+//
+// startKeepalive is only as good as its call sites: a session that never starts it is never closed when its peer
+// dies. The real Server.Connect / Client.Connect run with the transport binding (connect) and the session's
+// startKeepalive replaced by recorders.
+
+type zzKAStart struct {
+	starts    int
+	intervals []time.Duration
+}
+
+var zzKA *zzKAStart
+
+func zzServerStartKeepalive(ss *ServerSession, interval time.Duration) {
+	zzKA.starts++
+	zzKA.intervals = append(zzKA.intervals, interval)
+}
+func zzClientStartKeepalive(cs *ClientSession, interval time.Duration) {
+	zzKA.starts++
+	zzKA.intervals = append(zzKA.intervals, interval)
+}
+func zzC13ServerConnect(ctx context.Context, t Transport, b binder[*ServerSession, *ServerSessionState], s *ServerSessionState, onClose func(), logger *slog.Logger) (*ServerSession, error) {
+	ss := &ServerSession{server: b.(*Server), onClose: onClose}
+	if s != nil {
+		ss.state = *s
+	}
+	return ss, nil
+}
+
+func zzC13ServerStart() {
+	ka := &zzKAStart{}
+	zzKA = ka
+	interval := time.Duration(vIntRange("keepAlive", -1, 1<<40)) // negative, zero (off) or any positive interval
+	srv := NewServer(&Implementation{Name: "s", Version: "v"}, &ServerOptions{KeepAlive: interval})
+	var opts *ServerSessionOptions
+	switch vChoice("options", 4) {
+	case 1:
+		opts = &ServerSessionOptions{}
+	case 2: // a session restored from saved state (e.g. a stateless or distributed deployment)
+		opts = &ServerSessionOptions{State: &ServerSessionState{InitializeParams: &InitializeParams{ProtocolVersion: protocolVersion20250618}}}
+	case 3:
+		opts = &ServerSessionOptions{State: &ServerSessionState{}}
+	}
+	ss, err := srv.Connect(context.Background(), &InMemoryTransport{}, opts)
+	vAssert(err == nil && ss != nil, "C13.server-connect-ok")
+	if interval > 0 {
+		vAssert(ka.starts == 1 && ka.intervals[0] == interval, "C13.server-session-starts-keepalive-when-configured")
+		vReach("on")
+	} else {
+		vAssert(ka.starts == 0, "C13.keepalive-off-when-not-configured")
+	}
+	vReach("end")
+}
+
+func zzC13ClientStart() {
+	ka := &zzKAStart{}
+	zzKA = ka
+	zzC06 = &zzC06Env{}
+	env := &zzC07Env{}
+	zzC07 = env
+	srv := NewServer(&Implementation{Name: "s", Version: "v"}, nil)
+	t := &InMemoryTransport{}
+	env.ss = &ServerSession{server: srv, supportedVersions: filterSupportedVersions(t)}
+	interval := time.Duration(vIntRange("keepAlive", -1, 1<<40))
+	c := NewClient(&Implementation{Name: "c", Version: "v"}, &ClientOptions{KeepAlive: interval})
+	c.sendingMethodHandler_ = zzC07Router
+	requested := []string{"", protocolVersion20250618, protocolVersion20260728}[vChoice("requested", 3)]
+	cs, err := c.Connect(context.Background(), t, &ClientSessionOptions{ProtocolVersion: requested})
+	vAssert(err == nil && cs != nil, "C13.client-connect-ok")
+	modern := cs.state.InitializeResult.ProtocolVersion >= protocolVersion20260728
+	if modern {
+		// documented (ClientOptions.KeepAlive): ping is removed from 2026-07-28 and keep-alive is not available there
+		vAssert(ka.starts == 0, "C13.no-keepalive-pings-under-2026-07-28")
+		vReach("modern")
+	} else if interval > 0 {
+		vAssert(ka.starts == 1 && ka.intervals[0] == interval, "C13.client-session-starts-keepalive-when-configured")
+		vReach("on")
+	} else {
+		vAssert(ka.starts == 0, "C13.keepalive-off-when-not-configured")
+	}
 	vReach("end")
 }
